@@ -112,6 +112,39 @@ theorem readRows_unterminated {α} (parse : Str → Option α) (d : Char) (ls : 
     | cons c cs => rfl
   simp [readRows, observedLines_unterminated ls last h hl hne, lineValues, List.filter_append, hne']
 
+/-- with the loop written `while (getline(ifs, str))` the rows are the values of the non-empty lines, for EVERY text -/
+theorem readRowsWith_false {α} (parse : Str → Option α) (d : Char) (s : Str) :
+    readRowsWith false parse d s =
+      ((splitOn '\n' s).filter (fun l => !l.isEmpty)).map (lineValues parse d) := by
+  have hf : (fields '\n' s).filter (fun l => !l.isEmpty) = (splitOn '\n' s).filter (fun l => !l.isEmpty) := by
+    unfold fields
+    simp only
+    split
+    · rename_i h
+      have hne : splitOn '\n' s ≠ [] := splitOn_ne_nil _ _
+      have hl : (splitOn '\n' s).getLast hne = [] := by
+        rw [List.getLast?_eq_some_getLast hne] at h
+        exact Option.some.inj h
+      have := List.dropLast_concat_getLast hne
+      rw [hl] at this
+      conv => rhs; rw [← this]
+      simp [List.filter_append]
+    · rfl
+  simp only [readRowsWith, Bool.false_eq_true, if_false, hf]
+  rfl
+
+theorem readRowsWith_true {α} (parse : Str → Option α) (d : Char) (s : Str) :
+    readRowsWith true parse d s = readRows parse d s := rfl
+
+/-- on a text in which every line is terminated both forms of the outer loop collect the same rows -/
+theorem readRowsWith_joinLines {α} (parse : Str → Option α) (d : Char) (ls : List Str)
+    (h : ∀ l ∈ ls, '\n' ∉ l) (b : Bool) :
+    readRowsWith b parse d (joinLines ls) = (ls.filter (fun l => !l.isEmpty)).map (lineValues parse d) := by
+  cases b
+  · rw [readRowsWith_false, splitOn_joinLines ls h]
+    simp [List.filter_append]
+  · exact readRows_joinLines parse d ls h
+
 theorem firstRagged_none {α} (c : Nat) : ∀ (rows : List (List α)) (i : Nat), (∀ r ∈ rows, r.length = c) →
     firstRagged c rows i = none
   | [], _, _ => rfl
